@@ -14,10 +14,8 @@ func scenarios(tier string) []fx.Scenario {
 	m, leaves := 4, 2
 	kinds := fx.BadKinds
 	if tier == "thorough" {
-		// larger trees; the invalid block is made invalid in the two ways that fail earliest and
-		// latest (bad block signature, wrong state root) to keep the run inside its budget
+		// larger trees, every kind of invalid block
 		m, leaves = 5, 3
-		kinds = []string{"root", "sign"}
 	}
 	var out []fx.Scenario
 	for _, p := range fx.Trees(m, leaves) {
